@@ -15,6 +15,9 @@ def run(ctx, R):
                      'u16::from(AddressFamily) = size table. C14.D (address value = decoding of the address view) is the C02 layout read '
                      'relative to header[16..].')
     inv.establish_inv2(ctx, R, 'C14.I')
+    # C14.D the decoded address value is the big-endian decoding of the address view (header[16..16+size]): accepting rows of the v2 decision table
+    from rules.v2common import run_v2_table
+    run_v2_table(ctx, R, 'C14', 'C14.D')
     n_acc = views(ctx, R)
     R.floor('accessor summaries x variants', n_acc, 28)
     rest(ctx, R)
